@@ -687,6 +687,8 @@ class ResetChannel(raw_types.Gate):
         return True
 
     def _qasm_(self, args: cirq.QasmArgs, qubits: tuple[cirq.Qid, ...]) -> str | None:
+        if self._dimension != 2:
+            return NotImplemented  # QASM has no qudit operations.
         args.validate_version('2.0', '3.0')
         return args.format('reset {0};\n', qubits[0])
 
